@@ -274,7 +274,7 @@ func jnodeEqualOrdered(a, b JNode) bool { return a.Compact() == b.Compact() }
 // ---------------------------------------------------------------------------------------------
 // YAML documents
 
-var yamlScalars = []string{"1", "abc", "hello world", "true", "null", "\"quoted\"", "'single'", "1.5", "2024-01-02", "~", "a-b", "x_y"}
+var yamlScalars = []string{"/-/-/-/", "1", "abc", "hello world", "true", "null", "\"quoted\"", "'single'", "1.5", "2024-01-02", "~", "a-b", "x_y"}
 
 func genYAMLBlock(t *rapid.T, indent string, depth int) []string {
 	var out []string
